@@ -53,6 +53,26 @@ def show(dt, status):
     return f"ok {dt.year} {dt.month} {dt.day} {dt.hour} {dt.minute} {dt.second} {dt.microsecond} {offs} {st}"
 
 
+def again(t, bs, out, status):
+    """the same 12 bytes decoded once more after the caller changed the status object it was given, and handed over as a
+    bytearray (what the A-XDR decoder passes for a date-time inside a structure): the same answer."""
+    fw.scribble(status)
+    note = ""
+    for name, data in (("second-decode", bytes(bs)), ("bytearray", bytearray(bs))):
+        try:
+            d2, s2 = t.datetime_from_bytes(data)
+            o2 = show(d2, s2)
+        except fw._Timeout:
+            raise
+        except Exception as e:  # noqa
+            o2 = "err " + type(e).__name__
+        if o2 != out:
+            note += f" !{name}-gives:{o2}"
+        else:
+            fw.scribble(s2)
+    return note
+
+
 def out_of_range(b):
     y = b[0] * 256 + b[1]
     mo, da, wd, ho, mi, se, hu = b[2:9]
@@ -111,7 +131,8 @@ class C16(fw.Prop):
                 if op == "enc":
                     return "ok " + fw.hx(bs)
                 dt2, st2 = t.datetime_from_bytes(bs)
-                return show(dt2, st2)
+                out = show(dt2, st2)
+                return out + again(t, bs, out, st2)
             return fw.Case(f"time {op} {args}", impl, "prop", d, tags=(op,))
         if op == "dn":
             # the date-time inside a data-notification: what the date-time codec refuses is not delivered as "no date-time"
@@ -141,7 +162,8 @@ class C16(fw.Prop):
             def impl():
                 from dlms_cosem import time as t
                 dt2, st2 = t.datetime_from_bytes(b)
-                return show(dt2, st2)
+                out = show(dt2, st2)
+                return out + again(t, b, out, st2)
             kind = "prop" if (len(b) == 12 and out_of_range(b)) or len(b) != 12 else "model"
             return fw.Case(f"time dec {fw.hx(b)}", impl, kind, d, tags=("dec-" + kind,))
         raise fw.MachineryError(op)
